@@ -52,8 +52,9 @@ def gen_sort_case(rnd):
         src = [{k: r[k] for k in keys} for r in rows]
         q = select(items, table("t"), distinct=True, order=order, limit=limit, offset=offset,
                    limit_spelling=rnd.choice([0, 1]))
+        # ("mixed" would store equal numbers as different Go kinds: such rows are not exact duplicates for DISTINCT)
         return mk_case({"t": rows}, q, mode="sorted" if limit is None else "keyseq", order_keys=[[k] for k in keys],
-                       source_rows=src, tag="sort-distinct", num_kind=nk)
+                       source_rows=src, tag="sort-distinct", num_kind=None if nk == "mixed" else nk)
     q = select([["star"]], table("t"), order=order, limit=limit, offset=offset,
                limit_spelling=rnd.choice([0, 1]))
     mode = "sorted" if limit is None else "keyseq"
